@@ -139,6 +139,7 @@ public:
       for (size_t k = 0; k < e->s_x.size(); k++) {
         class species* s = e->s_x[k];
         if (!((s->type == EX && hex_) || (s->type == SURF && hsu))) continue;
+        if (s->type == EX && s->primary != NULL) continue;   // mb_for_species_ex: the exchange master species is not summed
         o << (s->type == EX ? "XS " : "US ") << hex(s->name) << " " << hexd(s->moles) << " " << hexd(s->equiv);
         size_t ne = 0;
         std::ostringstream q;
@@ -184,11 +185,15 @@ public:
     size_t np = r->probes.size() / 3, cur = 0;
     size_t rounds = np / idx.size();
     if (rounds > 40) rounds = 40;
-    o << "PG " << hexd(e->convergence_tolerance) << " " << hexd(e->ineq_tol) << " " << e->iterations << " " << idx.size() << " " << rounds << "\n";
+    o << "PG " << hexd(e->convergence_tolerance) << " " << hexd(e->ineq_tol) << " " << hexd(e->MIN_RELATED_SURFACE) << " " << e->iterations << " " << idx.size() << " " << rounds << "\n";
     int save_err = e->input_error;
+    // everything the probes write is restored afterwards, so the calculation goes on undisturbed
+    std::vector<double> sv_m, sv_f, sv_d, sv_xd, sv_r, sv_arr(e->my_array.begin(), e->my_array.end());
+    for (int i = 0; i < e->count_unknowns; i++) { sv_m.push_back(e->x[i]->moles); sv_f.push_back(e->x[i]->f); sv_d.push_back(e->delta[i]); sv_xd.push_back(e->x[i]->delta); sv_r.push_back(e->residual[i]); }
+    int sv_stop = e->stop_program, sv_rm = e->remove_unstable_phases, sv_it = e->iterations;
+    double sv_patm = e->patm_x, sv_last = e->last_patm_x;
     for (size_t rd = 0; rd < rounds; rd++) {
-      // --- residuals() and check_residuals() on crafted f / moles
-      std::vector<double> fs, ms, ds;
+      std::vector<double> fs, ms, ds, resid, rdel, din, mafter, dafter;
       for (size_t k = 0; k < idx.size(); k++, cur++) {
         class unknown* u = e->x[idx[k]];
         cxxPPassemblageComp* c = (cxxPPassemblageComp*)u->pp_assemblage_comp_ptr;
@@ -207,43 +212,35 @@ public:
         }
         fs.push_back(f); ms.push_back(m); ds.push_back(dsel);
       }
-      // set every unknown's f so that its own row passes except PP rows: only PP rows are modified; other rows keep
-      // the converged values of the finished calculation
+      // --- residuals() and check_residuals() on crafted f / moles (only PP rows are modified; the other rows keep the
+      //     converged values of the finished calculation)
       for (size_t k = 0; k < idx.size(); k++) { e->x[idx[k]]->f = fs[k]; e->x[idx[k]]->moles = ms[k]; }
       int it_save = e->iterations;
       if (e->iterations < 1) e->iterations = 1;
       int rr = e->residuals();
-      o << "PR " << rd << " " << (rr == CONVERGED ? 1 : 0);
-      for (size_t k = 0; k < idx.size(); k++) o << " " << hexd(e->residual[idx[k]]);
-      o << "\n";
-      ip->rec = true; ip->n_err = 0; ip->n_warn = 0; ip->logs.clear(); ip->errs.clear();
+      for (size_t k = 0; k < idx.size(); k++) resid.push_back(e->residual[idx[k]]);
+      ip->rec = true; ip->n_err = 0; ip->n_warn = 0; ip->logs.clear(); ip->errs.clear(); ip->warns.clear();
       e->remove_unstable_phases = FALSE;
       int stop_save = e->stop_program; e->stop_program = FALSE;
       int cr = e->check_residuals();
       ip->rec = false;
-      // per-unknown message attribution: messages carry the description of the unknown
-      o << "PC " << rd << " " << (cr == ERROR ? 1 : 0) << " " << (e->remove_unstable_phases ? 1 : 0) << " " << ip->n_err << " " << ip->n_warn;
-      for (size_t k = 0; k < idx.size(); k++) {
-        std::string d = e->x[idx[k]]->description ? e->x[idx[k]]->description : "";
-        int ne = 0, nl = 0;
-        for (size_t q = 0; q < ip->errs.size(); q++) if (ip->errs[q].find(d) != std::string::npos && ip->errs[q].find("Pure phase") != std::string::npos) ne++;
-        for (size_t q = 0; q < ip->logs.size(); q++) if (ip->logs[q].find(d) != std::string::npos && ip->logs[q].find("ure phase") != std::string::npos && ip->logs[q].find("ERROR") == std::string::npos) nl++;
-        o << " " << ne << " " << nl;
-      }
-      o << "\n";
+      int nlog = 0;
+      for (size_t q = 0; q < ip->logs.size(); q++)
+        if (ip->logs[q].find("has not converged") != std::string::npos && ip->logs[q].find("ERROR") == std::string::npos) nlog++;
+      int rm = e->remove_unstable_phases ? 1 : 0;
+      o << "PRD " << rd << " " << (rr == CONVERGED ? 1 : 0) << " " << (cr == ERROR ? 1 : 0) << " " << rm << " " << ip->n_err << " "
+        << ip->n_warn << " " << nlog << "\n";
       e->remove_unstable_phases = FALSE; e->stop_program = stop_save;
       e->input_error = save_err;
       // --- ineq() special case (remove unstable phases): delta[i] = moles for present, undersaturated, unrestricted phases
       for (size_t k = 0; k < idx.size(); k++) e->delta[idx[k]] = 12345.0;
       e->remove_unstable_phases = TRUE;
-      int ik = e->ineq(0);
-      o << "PI " << rd << " " << (ik == OK ? 1 : 0) << " " << (e->remove_unstable_phases ? 1 : 0);
-      for (size_t k = 0; k < idx.size(); k++) o << " " << hexd(e->delta[idx[k]]);
-      o << "\n";
+      e->ineq(0);
+      for (size_t k = 0; k < idx.size(); k++) rdel.push_back(e->delta[idx[k]]);
+      int rm_after = e->remove_unstable_phases ? 1 : 0;
       e->remove_unstable_phases = FALSE;
       // --- reset(): only the PP deltas are non-zero
       for (int i = 0; i < e->count_unknowns; i++) e->delta[i] = 0.0;
-      o << "PD " << rd;
       for (size_t k = 0; k < idx.size(); k++) {
         class unknown* u = e->x[idx[k]];
         cxxPPassemblageComp* c = (cxxPPassemblageComp*)u->pp_assemblage_comp_ptr;
@@ -263,16 +260,24 @@ public:
           default: d = ds[k] - 10.0; break;
         }
         e->delta[idx[k]] = d;
-        o << " " << hexd(m) << " " << hexd(d) << " " << hexd(ini) << " " << (u->dissolve_only ? 1 : 0);
+        din.push_back(d);
       }
-      o << "\n";
       e->stop_program = FALSE;
       e->reset();
-      o << "PM " << rd;
-      for (size_t k = 0; k < idx.size(); k++) o << " " << hexd(e->x[idx[k]]->moles) << " " << hexd(e->delta[idx[k]]);
-      o << "\n";
+      for (size_t k = 0; k < idx.size(); k++) { mafter.push_back(e->x[idx[k]]->moles); dafter.push_back(e->delta[idx[k]]); }
+      for (size_t k = 0; k < idx.size(); k++) {
+        class unknown* u = e->x[idx[k]];
+        cxxPPassemblageComp* c = (cxxPPassemblageComp*)u->pp_assemblage_comp_ptr;
+        o << "PU " << rd << " " << k << " " << hexd(fs[k]) << " " << hexd(ms[k]) << " " << hexd(c->Get_initial_moles()) << " "
+          << (u->dissolve_only ? 1 : 0) << " " << (c->Get_add_formula().size() ? 1 : 0) << " " << hexd(resid[k]) << " " << hexd(rdel[k])
+          << " " << hexd(din[k]) << " " << hexd(mafter[k]) << " " << hexd(dafter[k]) << " " << rm_after << "\n";
+      }
       e->iterations = it_save;
       e->input_error = save_err;
+    for (int i = 0; i < e->count_unknowns; i++) { e->x[i]->moles = sv_m[i]; e->x[i]->f = sv_f[i]; e->delta[i] = sv_d[i]; e->x[i]->delta = sv_xd[i]; e->residual[i] = sv_r[i]; }
+    std::copy(sv_arr.begin(), sv_arr.end(), e->my_array.begin());
+    e->stop_program = sv_stop; e->remove_unstable_phases = sv_rm; e->iterations = sv_it; e->input_error = save_err;
+    e->patm_x = sv_patm; e->last_patm_x = sv_last;
     }
     r->probe_out = o.str();
     return true;
@@ -307,7 +312,7 @@ public:
 static double cb(double x1, double x2, const char* str, void* cookie) {
   Run* r = (Run*)cookie;
   if (r->probing) {
-    if (!r->probed && TestIPhreeqc::probe(r)) { r->probed = true; throw PhreeqcStop(); }
+    if (!r->probed && TestIPhreeqc::probe(r)) { r->probed = true; }
     return 0.0;
   }
   r->blocks.push_back(TestIPhreeqc::block(r->ip));
